@@ -166,10 +166,10 @@ type site struct {
 // walker visits every leaf (scalar / atom / map key) and every container (slice / map / pointer) of a populated
 // value in a deterministic order. When target >= 0 the target-th site is mutated by mutate().
 type walker struct {
-	sites  []site
-	target int
-	mutate func(v reflect.Value, s site) // v is settable (for map keys: the *map*, see mapKeyMut)
-	keyMut func(m reflect.Value, key reflect.Value, s site)
+	sites         []site
+	target        int
+	mutate        func(v reflect.Value, s site) // v is settable (for map keys: the *map*, see mapKeyMut)
+	keyMut        func(m reflect.Value, key reflect.Value, s site)
 	skippedNonAPI map[string]bool
 	customMarshal map[string]bool
 }
@@ -251,9 +251,10 @@ func normPath(p string) string {
 }
 
 // class of a NodePoolSpec path with respect to the statement.
-//   hashed      : a template field not listed as non-drifting -> an edit must change the hash
-//   requirements: Template.Spec.Requirements -> must not change the hash
-//   outside     : budgets / limits / weight / consolidation settings / replicas -> must not change the hash
+//
+//	hashed      : a template field not listed as non-drifting -> an edit must change the hash
+//	requirements: Template.Spec.Requirements -> must not change the hash
+//	outside     : budgets / limits / weight / consolidation settings / replicas -> must not change the hash
 func pathClass(p string) string {
 	switch {
 	case strings.HasPrefix(p, ".Template.Spec.Requirements"):
@@ -526,4 +527,3 @@ func checkHashWalk(r *mon.Report, rng *rand.Rand, idx int) {
 		}
 	}
 }
-
